@@ -10,6 +10,7 @@ Definition run (comp : Z) (inp : list Z) : list Z :=
   else if comp =? 3 then run_from_hex inp
   else if comp =? 4 then run_dec inp
   else if comp =? 5 then run_dec_unfixed inp
+  else if comp =? 6 then run_dec_items inp
   else if comp =? 10 then run_parse inp
   else if comp =? 11 then run_tokens inp
   else if comp =? 12 then run_parser_ops inp
